@@ -12,7 +12,9 @@ reference has a relative error below 1e-190, 170 orders of magnitude below u).
 
 The theorem is about the model of Model/MetricRnd.v: a rounding after every arithmetic node, np.sum as a LEFT FOLD.
 numpy sums pairwise from n = 8 (8-way unrolled blocks, recursion above 128 entries); pairwise summation has a smaller
-worst-case error than the left fold, so the bound must still hold.  The njit-compiled bodies sum with a plain loop.  A
+worst-case error than the left fold, so the bound must still hold.  The registered functions are njit-compiled: numba's
+np.sum is a sequential accumulation (the model's left fold; measured errors grow like n u / 6 on equal terms).  BOTH are
+checked: the registered function, and the same source run by plain numpy (`.py_func`, pairwise np.sum).  A
 fused multiply-add would remove one rounding per term.  None of this can exceed the bound; a measured excess is a
 modelling finding and is reported as a violation with the input.
 
@@ -302,6 +304,18 @@ class Exact:
         return (1 + self.u) ** k - 1
 
 
+def numpy_variant(fn):
+    """the same source function run by plain numpy (np.sum = pairwise summation) instead of the njit-compiled code:
+    `.py_func` of the numba dispatcher, re-wrapped by the decorator when the registered function is decorated"""
+    inner = getattr(fn, "__wrapped__", None)
+    if inner is not None and hasattr(inner, "py_func"):
+        import opfython.utils.decorator as dec
+        return dec.avoid_zero_division(inner.py_func)
+    if hasattr(fn, "py_func"):
+        return fn.py_func
+    return None
+
+
 def call_impl(fn, x, y):
     try:
         return float(fn(np.array(x, dtype=np.float64), np.array(y, dtype=np.float64))), ""
@@ -371,6 +385,19 @@ def run_shift(rep, D, tier, seed, ex, lengths):
                     x, y = gen_pair_nonneg(rng, n, style)
                     ok, info = check_one_shift(ex, name, fn, tab[name], x, y)
                     p = per[name]
+                    fnp = numpy_variant(fn)
+                    if fnp is not None and ok is not None:
+                        ok2, info2 = check_one_shift(ex, name, fnp, tab[name], x, y)
+                        p["numpy_cases"] = p.get("numpy_cases", 0) + 1
+                        if info2.get("ratio") is not None:
+                            p["numpy_max_err_in_u"] = max(p.get("numpy_max_err_in_u", 0.0), info2["err_in_u"])
+                        if ok2 is False and ("np", name) not in bad_seen:
+                            bad_seen.add(("np", name))
+                            rep.violation("%s run by plain numpy (pairwise np.sum): |value - closed form at shifted arguments| exceeds "
+                                          "((1+u)^%d / (1-u)^%d - 1) * exact, n=%d: value=%r exact=%r"
+                                          % (name, info2["p"], info2["q"], n, info2["got"], info2["exact"]),
+                                          dict(kind="rounding", shifted=True, numpy=True, name=name, x=x, y=y, p=info2["p"], q=info2["q"],
+                                               got=info2["got"], exact=info2["exact"], style=style), key="rounding_numpy:%s" % name)
                     if ok is None:
                         p["skipped"] += 1
                         continue
@@ -431,6 +458,18 @@ def run(rep, D, tier, seed):
                     for _ in range(reps):
                         x, y = gen_pair(rng, n, style)
                         ok, info = check_one(ex, name, fn, tab[name], x, y)
+                        fnp = numpy_variant(fn)
+                        if fnp is not None:
+                            ok2, info2 = check_one(ex, name, fnp, tab[name], x, y)
+                            per[name]["numpy_cases"] = per[name].get("numpy_cases", 0) + 1
+                            if info2["ratio"] is not None:
+                                per[name]["numpy_max_err_in_u"] = max(per[name].get("numpy_max_err_in_u", 0.0), info2["err_in_u"])
+                            if not ok2 and ("np", name) not in bad_seen:
+                                bad_seen.add(("np", name))
+                                rep.violation("%s run by plain numpy (pairwise np.sum): |value - exact| exceeds ((1+u)^%d - 1) * exact, n=%d: value=%r exact=%r"
+                                              % (name, info2["k"], n, info2["got"], info2["exact"]),
+                                              dict(kind="rounding", numpy=True, name=name, x=x, y=y, k=info2["k"], got=info2["got"],
+                                                   exact=info2["exact"], style=style), key="rounding_numpy:%s" % name)
                         stats["cases"] += 1
                         p = per[name]
                         p["cases"] += 1
@@ -473,8 +512,9 @@ def replay(r, D):
         if name not in tabs or name not in D:
             print("replay: %r has no stated shifted rounding bound" % name)
             return 0
+        fn = numpy_variant(D[name]) if r.get("numpy") else D[name]
         with Exact() as ex:
-            ok, info = check_one_shift(ex, name, D[name], tabs[name], x, y)
+            ok, info = check_one_shift(ex, name, fn, tabs[name], x, y)
         print("replay: %s n=%d (p, q)=(%d, %d) value=%r closed form at shifted arguments=%r error=%s u, %s x the bound -> %s"
               % (name, len(x), info["p"], info["q"], info["got"], info["exact"], info.get("err_in_u"), info.get("ratio"),
                  "within" if ok else "EXCEEDS"))
@@ -483,8 +523,9 @@ def replay(r, D):
     if name not in tab or name not in D:
         print("replay: %r has no stated rounding bound" % name)
         return 0
+    fn = numpy_variant(D[name]) if r.get("numpy") else D[name]
     with Exact() as ex:
-        ok, info = check_one(ex, name, D[name], tab[name], x, y)
+        ok, info = check_one(ex, name, fn, tab[name], x, y)
     print("replay: %s n=%d k=%d value=%r exact=%r error=%s u, %s x the bound -> %s"
           % (name, len(x), info["k"], info["got"], info["exact"], info["err_in_u"], info["ratio"], "within" if ok else "EXCEEDS"))
     return 0 if ok else 1
